@@ -130,7 +130,9 @@ pub fn judge<S: rsbdd::BDDSymbol>(sp: &Space<S>, res: &Rc<BDD<S>>, want: u64, or
 pub fn check_api(ctx: &mut Ctx, sp: &Space<usize>, how: &str, op: ApiOp, tts: &[u64], oracle: Oracle, prop_tag: &str) {
     ctx.begin_case(|| api_case(sp, how, op, tts));
     ctx.count("transitions", 1);
-    let hs: Vec<Rc<BDD<usize>>> = tts.iter().map(|t| sp.get(*t)).collect();
+    // "transient": the operands are fresh copies that live only for this call (the environment has
+    // interned twins of them); the next case's copies reuse their addresses
+    let hs: Vec<Rc<BDD<usize>>> = tts.iter().map(|t| if how == "transient" { robdd::deep_copy(&sp.get(*t)) } else { sp.get(*t) }).collect();
     let snaps: Vec<Rc<BDD<usize>>> = if oracle.semantic { hs.iter().map(|h| robdd::deep_copy(h)).collect() } else { vec![] };
     let want = op.expect(tts, sp.full);
     let key = || format!("{prop_tag} api syms={:?}: {}({})", sp.syms, op.name(), tts.iter().map(|t| format!("{t:#x}")).collect::<Vec<_>>().join(", "));
@@ -614,7 +616,7 @@ pub fn replay_api(ctx: &mut Ctx, case: &Value, oracle: Oracle, prop_tag: &str) {
     }
     let sp = if how == "foreign" {
         Space::<usize>::by_foreign(&syms)
-    } else if how == "interned" {
+    } else if how == "interned" || how == "transient" {
         match Space::<usize>::by_interning(&syms) {
             Ok(s) => s,
             Err(e) => {
